@@ -163,7 +163,8 @@ class GaussianLikelihood(Likelihood):
     def _log_likelihood_gradient(
         self, predictions: ndarray, predictions_jacobian: ndarray
     ) -> ndarray:
-        dL_dF = (self.y - predictions) * self.inv_sigma_sqr
+        # (two factors of 1/sigma: their product under- or overflows for extreme sigma)
+        dL_dF = (self.y - predictions) * self.inv_sigma * self.inv_sigma
         return dL_dF @ predictions_jacobian
 
 
